@@ -205,6 +205,70 @@ Example C04_nonvacuous_crd :
   mon_C04_obs sc c0 (run sc c0) = true.
 Proof. vm_compute. repeat split; reflexivity. Qed.
 
+(* ---- dependencies spelled as apply-time-mutation sources ------------------------------------------
+   `l_deps` is the dependency attribute whatever its spelling: C04_order, C04_blocked_* and the monitor
+   speak of `g_deps (pl_graph pl)`, which holds the references of a manifest whether they are depends-on
+   targets or (`l_mut`) sources of substitutions.  A mutation-spelled object is, in addition, subject to
+   the source lookup of the mutator, which can only make it fail (no request): it never lets an apply
+   through that the dependency filter would have held back.
+   Three layers: 0; 1 depends on 0; 2 (mutation-spelled) has the sources 1 and 0.  While 1 is waited
+   for, the watcher reports 0 - reconciled long ago - as InProgress.  The dependency filter of 2 still
+   passes (the actuation table is only written for the objects of the current wait group), but the
+   cache entry of 0 is no longer "Current with a body": the mutator reads 0 from the cluster (its second
+   GET: kubectl read it when it applied it).  Found: 2 is created.  That GET rejected: the apply of 2
+   fails, no request. *)
+Definition C04_mut_sc (extra : list sobs) (f : list faddr) : scenario :=
+  mkSc [mkU KPlain None None; mkU KPlain None None; mkU KPlain None None] None
+       [mkL 0 [] false false false 1; mkL 1 [0] false false false 1; mkLM 2 [1; 0] false false false 1 true]
+       (mkO false true PAdoptAll DNone VSkipInvalid false true true false PropBackground false)
+       (mkE f [mkW [mkS 0 SCurrent true 5%N 2%Z] WTimeout;
+               mkW (extra ++ [mkS 1 SCurrent true 6%N 2%Z]) WTimeout;
+               mkW [mkS 2 SCurrent true 7%N 2%Z] WTimeout] CNever None).
+Definition apply_ok_count (t : list item) : nat :=
+  length (filter (fun it => match it with IEv (EApply _ _ AOk) => true | _ => false end) t).
+Definition C04_mut_items (t : list item) : list item :=
+  filter (fun it => match it with
+                    | IReq (RCreate _ _) _ _ _ | IEv (EApply _ _ _) | IDeliv _ => true
+                    | _ => false end) t.
+Example C04_mutation_source_reread :
+  let c0 := mkCl [] None 5%N in
+  let again := [mkS 0 SInProgress true 5%N 2%Z] in
+  option_map (fun p => g_deps (pl_graph (fst p)) 2) (run_plan (C04_mut_sc again []) c0) = Some [1; 0] /\
+  (* the cache serves the source: a fault on what would be the mutator's GET hits nothing *)
+  C04_mut_items (out_trace (run (C04_mut_sc [] [FGet 0 1]) c0)) =
+    [IReq (RCreate 0 false) true [0] (Some [0; 1; 2]); IEv (EApply (GApply, 0) 0 AOk);
+     IDeliv (mkS 0 SCurrent true 5%N 2%Z);
+     IReq (RCreate 1 false) true [0; 1] (Some [0; 1; 2]); IEv (EApply (GApply, 1) 1 AOk);
+     IDeliv (mkS 1 SCurrent true 6%N 2%Z);
+     IReq (RCreate 2 false) true [0; 1; 2] (Some [0; 1; 2]); IEv (EApply (GApply, 2) 2 AOk);
+     IDeliv (mkS 2 SCurrent true 7%N 2%Z)] /\
+  (* the source reported InProgress again: read from the cluster; rejected: the target fails *)
+  C04_mut_items (out_trace (run (C04_mut_sc again [FGet 0 1]) c0)) =
+    [IReq (RCreate 0 false) true [0] (Some [0; 1; 2]); IEv (EApply (GApply, 0) 0 AOk);
+     IDeliv (mkS 0 SCurrent true 5%N 2%Z);
+     IReq (RCreate 1 false) true [0; 1] (Some [0; 1; 2]); IEv (EApply (GApply, 1) 1 AOk);
+     IDeliv (mkS 0 SInProgress true 5%N 2%Z); IDeliv (mkS 1 SCurrent true 6%N 2%Z);
+     IEv (EApply (GApply, 2) 2 AFail)] /\
+  apply_ok_count (out_trace (run (C04_mut_sc again []) c0)) = 3 /\
+  mon_C04 (C04_mut_sc again [FGet 0 1]) c0 (run (C04_mut_sc again [FGet 0 1]) c0) = true /\
+  mon_C04_obs (C04_mut_sc again [FGet 0 1]) c0 (run (C04_mut_sc again [FGet 0 1]) c0) = true /\
+  mon_C04 (C04_mut_sc again []) c0 (run (C04_mut_sc again []) c0) = true /\
+  mon_C04_obs (C04_mut_sc again []) c0 (run (C04_mut_sc again []) c0) = true /\
+  wf_b (C04_mut_sc again [FGet 0 1]) c0 = true.
+Proof. vm_compute. repeat split; reflexivity. Qed.
+
+(* the first dry-run of a mutation-spelled pair: the source does not exist, the target fails without a request;
+   the order theorem has nothing to say (no request for the dependent), the blocked-dependents theorems hold *)
+Example C04_mutation_dry_run_source_missing :
+  let sc := mkSc [mkU KPlain None None; mkU KPlain None None] None
+                 [mkL 0 [] false false false 1; mkLM 1 [0] false false false 1 true]
+                 (mkO false true PMustMatch DClient VSkipInvalid false true false false PropBackground false)
+                 (mkE [] [] CNever None) in
+  let c0 := mkCl [] None 5%N in
+  C04_mut_items (out_trace (run sc c0)) = [IEv (EApply (GApply, 0) 0 AOk); IEv (EApply (GApply, 1) 1 AFail)] /\
+  mon_C04 sc c0 (run sc c0) = true /\ mon_C04_obs sc c0 (run sc c0) = true.
+Proof. vm_compute. repeat split; reflexivity. Qed.
+
 Print Assumptions C04_order.
 Print Assumptions C04_filter_pass.
 Print Assumptions C04_blocked_partial.
